@@ -82,6 +82,9 @@ def cells(tier):
     out.append(mk(['SD', 'SD'], [ALL, []], pre_op='append-timed', unique=False, T=T))
     out.append(mk(['SD', 'TT+MT'], [['sl'], ALL], pre_op='roreplace', T=T))
     out.append(mk(['none', 'SD', 'MT'], [ALL, [], ['sl', 'in']], pre_op='roreplace', edstart='absent', T=T))
+    # a running order without any story (sent empty, or emptied by deletes)
+    for ed in ('present', 'absent'):
+        out.append(mk([], [], edstart=ed, T=T))
     # zone designators: an aware roEdStart next to naive story stamps, the reverse, and both aware
     for stamps in ((3, 1), (0, 4), (3, 4)):
         out.append(mk(['SD', 'TT+MT'], [ALL, []], started=[None, 1], stamps=stamps, T=T))
